@@ -8,8 +8,10 @@ IsEvent(e) == l <= TraceLen /\ Ev.e = e /\ l' = l + 1 /\ UNCHANGED n
 TLogin == IsEvent("Login") /\ LoginOK(Ev)
 TWire == IsEvent("Wire") /\ WireOK(Ev)
 TDiff == IsEvent("Diff") /\ DiffOK(Ev)
+\* a raw login carrying the right response (judged by its own Wire event) must be answered by the server
+TRawAnswered == IsEvent("RawAnswered") /\ Ev.answered
 TReset == IsEvent("Reset")
-TNext == TLogin \/ TWire \/ TDiff \/ TReset
+TNext == TLogin \/ TWire \/ TDiff \/ TRawAnswered \/ TReset
 TraceSpec == TInit /\ [][TNext]_tvars
 TraceAccepted ==
     LET d == TLCGet("stats").diameter IN
